@@ -323,7 +323,7 @@ func replayAutoRow(idx int, line []byte, seed int64, col *collector, pacings []i
 		col.add(Mismatch{Case: idx, Step: -1, Props: []string{"TOOL"}, What: "bad-row", Note: fmt.Sprint(err)})
 		return
 	}
-	props := []string{"C11"}
+	props := []string{"C11", "C01"} // C01 covers automatic refresh configurations as well
 	hasConf := false
 	for _, a := range row.Hist {
 		if a.A == "configure" {
